@@ -169,6 +169,24 @@ def voice_call(r, cc, superframes=None, headers=None, terminator=True):
     return out
 
 
+def voice_call_total(r, cc, total):
+    """complete voice call of exactly `total` bursts: 1-3 LC headers, voice bursts in A..F order (last superframe possibly short), terminator"""
+    h = r.choice([1, 2, 3])
+    nv = max(0, total - h - 1)
+    out = []
+    src, dst = r.getrandbits(24), r.getrandbits(24)
+    for _ in range(h):
+        out.append((lc_burst(r, DataTypes.VoiceLCHeader, cc, src, dst), "D", "vh"))
+    vs = r.choice(VOICE_SYNCS)
+    for j in range(nv):
+        if j % 6 == 0:
+            out.append((voice_burst(r, sync=vs), "V", "vs"))
+        else:
+            out.append((voice_burst(r, cc=cc, lcss=r.randrange(4), pi=r.randrange(2)), "V", "ve"))
+    out.append((lc_burst(r, DataTypes.TerminatorWithLC, cc, src, dst), "D", "term"))
+    return out
+
+
 def generated_data_tx(r, rate, conf, n, preambles, cc, sap, payload_kind="random", dst=77, src=5678):
     """data transmission built by the real TransmissionGenerator; returns (bursts, meta)"""
     from math import ceil
